@@ -19,6 +19,7 @@ Two monitor layers, both on the real classes:
 
 from __future__ import annotations
 
+import bisect
 import copy
 import random
 from fractions import Fraction
@@ -40,6 +41,9 @@ RULE = (
     "window / refill boundary (measured from the case times) and >= 1 denial (measured from try_acquire). "
     "All families run at absolute time origins 0, 1 day, 1e9 s, 1.7e9 s, 1.727e9 s and 4e9 s (Simulation.start_time set "
     "accordingly), with arrivals up to 300 ns around period boundaries, all oracles on integer nanoseconds. "
+    "Long-history families (long: policy object driven directly; rle_long: behind RateLimitedEntity): one policy object "
+    "sees a saturating stream sized for 1300-4500 admissions (high rates / 1-50 ms windows, 1.3-3x overload, +-1 ns jitter, "
+    "rare idle periods, 8 % probe / query ops), same integer-ns oracles; non-trivial: > 1024 admissions and >= 1 denial. "
     "Simulation families: sender-side Event.cancel() of requests strictly after their arrival (40 % of rle / inductor cases); "
     "<= 60 tagged requests injected pre-run or by a feeder entity into RateLimitedEntity (every "
     "policy, queue capacity 0-5), Inductor, two DistributedRateLimiter instances over one KVStore with latency > 0, "
@@ -62,7 +66,7 @@ ASSUMPTIONS = [
     "(Inductor: (4 * queue_capacity + 8) * largest inter-arrival gap + 1 s); kept alive by a non-daemon sentinel event, no end_time",
     "DistributedRateLimiter is checked for exactly-once and order only (no global bound is stated for it)",
 ]
-MUST_OBSERVE = ["acquires_checked", "tua_probes", "requests_tracked", "cancels_on_queued_requests"]
+MUST_OBSERVE = ["acquires_checked", "tua_probes", "requests_tracked", "cancels_on_queued_requests", "histories_over_1024_admissions", "histories_over_4096_admissions"]
 
 NS = 1_000_000_000
 
@@ -300,6 +304,111 @@ def gen_policy(kind: str):
         return {"policy": spec, "ops": ops[:260], "anchor": anchor}
 
     return gen
+
+
+def _long_spec(rng: random.Random, kind: str) -> tuple[dict, int]:
+    """High-rate / short-window parameters so that thousands of admissions stay cheap.
+    Returns (spec, ns of simulated time per admission at saturation)."""
+    if kind in ("sliding", "fixed"):
+        params = {"window": rng.choice([0.01, 0.01, 0.001, 0.05]), "n": rng.choice([5, 10, 50])}
+        per = round(params["window"] * NS) // params["n"]
+    elif kind == "token":
+        params = {"capacity": rng.choice([1.0, 5.0, 50.0]), "refill_rate": rng.choice([1000.0, 10000.0, 3333.0]), "initial_tokens": None}
+        per = round(NS / params["refill_rate"])
+    elif kind == "leaky":
+        params = {"leak_rate": rng.choice([1000.0, 10000.0, 3333.0])}
+        per = round(NS / params["leak_rate"])
+    else:
+        params = {
+            "initial_rate": rng.choice([1000.0, 2000.0]),
+            "min_rate": 100.0,
+            "max_rate": 10000.0,
+            "increase_step": rng.choice([None, 10.0]),
+            "decrease_factor": rng.choice([0.5, 0.9]),
+            "window": rng.choice([0.01, 0.05]),
+        }
+        per = round(NS / params["initial_rate"])
+    return {"kind": kind, "params": params}, max(1, per)
+
+
+def _long_times(rng: random.Random, per: int, target: int, start: int, idle: int) -> list[int]:
+    """Saturating stream sized for about `target` admissions: steps around per/overload with +-1 ns jitter,
+    repeats, and a rare idle period."""
+    over = rng.choice([1.3, 2.0, 3.0])
+    step = max(1, int(per / over))
+    t = start
+    out = []
+    for _ in range(int(target * over * 1.15)):
+        r = rng.random()
+        if r < 0.002:
+            t += idle
+        else:
+            t += rng.choice([step, step, step, step - 1, step + 1, 0, 2 * step])
+        out.append(t)
+    return out
+
+
+def gen_long(rng: random.Random, tier: str) -> dict:
+    """Long history through ONE policy object: > 1024 and > 4096 admissions."""
+    kind = rng.choice(["token", "leaky", "sliding", "fixed", "adaptive"])
+    spec, per = _long_spec(rng, kind)
+    P = period_ns(spec)
+    target = rng.choice([1300, 1300, 2600, 4500])
+    start = rng.choice([0, 0, 1_700_000_000 * NS])
+    if kind == "fixed" and start:
+        start = -(-start // P) * P
+    times = _long_times(rng, per, target, start, 3 * P)
+    ops = []
+    for t in times:
+        if kind == "adaptive" and rng.random() < 0.01:
+            ops.append([rng.choice(["s", "s", "f"]), t])
+        ops.append([rng.choice(["a"] * 46 + ["p", "p", "q", "t"]), t])
+    return {"policy": spec, "ops": ops, "anchor": start, "long": True}
+
+
+def run_long(case: dict) -> Result:
+    res = run_policy(case)
+    n_adm = res.obs.get("admitted_total", 0)
+    res.count("long_histories")
+    res.count("long_history_admissions", n_adm)
+    if n_adm > 1024:
+        res.count("histories_over_1024_admissions")
+    if n_adm > 4096:
+        res.count("histories_over_4096_admissions")
+    res.nontrivial = n_adm > 1024 and res.obs.get("denials", 0) > 0
+    return res
+
+
+def gen_rle_long(rng: random.Random, tier: str) -> dict:
+    """Thousands of admissions through one policy object behind a RateLimitedEntity."""
+    kind = rng.choice(["token", "leaky", "sliding", "fixed", "adaptive"])
+    spec, per = _long_spec(rng, kind)
+    if kind == "adaptive":
+        spec["params"]["increase_step"] = None
+    P = period_ns(spec)
+    start = rng.choice([0, 0, 1_700_000_000 * NS])
+    origin = -(-start // P) * P
+    target = rng.choice([1300, 1300, 2200])
+    return {
+        "limiter": "rle",
+        "policy": spec,
+        "queue_capacity": rng.choice([0, 2, 5]),
+        "start_ns": start,
+        "arrivals": _long_times(rng, per, target, origin, 3 * P),
+        "inject": rng.choice(["prerun", "feeder"]),
+        "long": True,
+    }
+
+
+def run_rle_long(case: dict) -> Result:
+    res = run_sim(case)
+    n_fwd = res.obs.get("forwards_checked", 0)
+    res.count("long_histories")
+    res.count("long_history_admissions", n_fwd)
+    if n_fwd > 1024:
+        res.count("histories_over_1024_admissions")
+    res.nontrivial = n_fwd > 1024 and res.obs.get("queued_or_dropped", 0) > 0
+    return res
 
 
 # --------------------------------------------------------------------------
@@ -641,14 +750,15 @@ def run_policy(case: dict) -> Result:
         check_bounds(res, comp, spec, admitted)
     else:
         res.count("admitted_total", len(admitted))
-        _adaptive_bound(res, comp, spec, case["ops"], rate_after, admitted, admitted_op)
+        # long histories: intervals of up to 400 admissions (quadratic scan otherwise)
+        _adaptive_bound(res, comp, spec, case["ops"], rate_after, admitted, admitted_op, 400 if len(admitted) > 1500 else None)
     res.nontrivial = on_boundary > 0 and denials > 0
     if on_boundary:
         res.count("boundary_arrivals", on_boundary)
     return res
 
 
-def _adaptive_bound(res, comp, spec, ops, rate_after, admitted, admitted_op):
+def _adaptive_bound(res, comp, spec, ops, rate_after, admitted, admitted_op, max_span=None):
     p = spec["params"]
     W = p["window"]
     init = p["initial_rate"]
@@ -667,7 +777,7 @@ def _adaptive_bound(res, comp, spec, ops, rate_after, admitted, admitted_op):
         if ti == first_query_time:
             rmax = max(rmax, init)  # tokens were never clamped yet
         upto = g
-        for j in range(i, n):
+        for j in range(i, n if max_span is None else min(n, i + max_span)):
             aj = admitted_op[j]
             while upto <= aj:
                 if rate_after[upto] > rmax:
@@ -1114,6 +1224,7 @@ def run_sim(case: dict) -> Result:
     rank = {r: i for i, r in enumerate(arrival_order)}
     prev = None
     shapes_seen: set = set()
+    idle_instants = sorted(idle_at_end)
     for r in got:
         if prev is not None and rank.get(r, -1) < rank.get(prev, -1):
             # r arrived earlier than prev but was forwarded later => prev overtook r
@@ -1126,8 +1237,8 @@ def run_sim(case: dict) -> Result:
                 #    clock advance (RateLimitedEntity only; an Inductor has no policy to ask);
                 #  * otherwise capacity returned at the overtaker's own instant and it was delivered before the
                 #    drain poll (tie), or the limiter is an Inductor.
-                earlier = [t for t in idle_at_end if t < arrivals[over]]
-                if which == "rle" and earlier and idle_at_end[max(earlier)]:
+                k_prev = bisect.bisect_left(idle_instants, arrivals[over]) - 1
+                if which == "rle" and k_prev >= 0 and idle_at_end[idle_instants[k_prev]]:
                     shape = "arrival-after-capacity-left-idle-while-queue-nonempty"
                 else:
                     shape = "arrival-admitted-while-queue-nonempty"
@@ -1299,13 +1410,15 @@ FAMILIES = {
     "inductor": Family("inductor", gen_sim("inductor"), run_sim_once, shrink_sim),
     "dist": Family("dist", gen_sim("dist"), run_dist_once, shrink_sim),
     "null": Family("null", gen_sim("null"), run_sim_once, shrink_sim),
+    "long": Family("long", gen_long, _once(run_long), shrink_policy, case_timeout=120.0),
+    "rle_long": Family("rle_long", gen_rle_long, _once(run_rle_long), shrink_sim, case_timeout=120.0),
 }
 
-for _n, _sz in {"token": 2500, "leaky": 2000, "sliding": 2500, "fixed": 1500, "adaptive": 1250, "rle": 200, "inductor": 100, "dist": 75, "null": 40}.items():
+for _n, _sz in {"token": 2500, "leaky": 2000, "sliding": 2500, "fixed": 1500, "adaptive": 1250, "rle": 200, "inductor": 100, "dist": 75, "null": 40, "long": 15, "rle_long": 8}.items():
     FAMILIES[_n].shard_size = _sz  # fewer interpreter start-ups (2.5 s each) than the runner's default sharding
 
 BUDGET = {
-    "quick": {"token": 2500, "leaky": 2000, "sliding": 2500, "fixed": 3000, "adaptive": 2500, "rle": 800, "inductor": 300, "dist": 150, "null": 40},
+    "quick": {"token": 2500, "leaky": 2000, "sliding": 2500, "fixed": 3000, "adaptive": 2500, "rle": 800, "inductor": 300, "dist": 150, "null": 40, "long": 60, "rle_long": 24},
     "thorough": {
         "token": 150000,
         "leaky": 100000,
@@ -1316,5 +1429,7 @@ BUDGET = {
         "inductor": 12000,
         "dist": 5000,
         "null": 1000,
+        "long": 2500,
+        "rle_long": 600,
     },
 }
